@@ -50,7 +50,19 @@ CHECKS = {
 PENDING_REASON = "check not built yet in this session (planned as a Rocq proof + correspondence, see DESIGN.md section 6)"
 
 
+def load_fragments():
+    """tools/manifest.d/Cxx.json: {"text":..., "note":..., "technique":..., "design":...} (note is appended to NOTE_COMMON)"""
+    d = os.path.join(VERIF, "tools", "manifest.d")
+    if os.path.isdir(d):
+        for f in sorted(os.listdir(d)):
+            if f.endswith(".json"):
+                c = json.load(open(os.path.join(d, f)))
+                c["note"] = NOTE_COMMON + c.get("note", "")
+                CHECKS[f[:-5]] = c
+
+
 def main():
+    load_fragments()
     props = [json.loads(l)["id"] for l in open(os.path.join(VERIF, "properties.jsonl"))]
     checks = []
     for pid in props:
